@@ -77,7 +77,11 @@ func main() {
 		if *tier == "thorough" {
 			shrink = 120 * time.Second
 		}
-		os.Exit(engine.Check(engine.CheckConfig{Prop: *prop, Tier: *tier, Base: *base, Procs: *procs, Budget: *budget, Root: *root, Exe: exe, Scale: *scale, Hang: *hang, ShrinkFor: shrink}))
+		out := *root
+		if v := os.Getenv("VERIF_OUT"); v != "" {
+			out = v
+		}
+		os.Exit(engine.Check(engine.CheckConfig{Prop: *prop, Tier: *tier, Base: *base, Procs: *procs, Budget: *budget, Root: *root, Out: out, Exe: exe, Scale: *scale, Hang: *hang, ShrinkFor: shrink}))
 	case "child":
 		if pf := os.Getenv("VERIF_CPUPROFILE"); pf != "" {
 			f, _ := os.Create(pf)
